@@ -185,6 +185,7 @@ func c20MakeVals() []c20Val {
 		c20Go("int", func() interface{} { return int64(2) }),
 		c20Go("zero", func() interface{} { return int64(0) }),
 		c20Go("big", func() interface{} { return int64(5000) }), // outside the small-int cache
+		c20Go("huge", func() interface{} { return int64(9007199254740993) }), // not representable in float64
 		c20Go("float", func() interface{} { return float64(2.5) }),
 		c20Go("str", func() interface{} { return "abc" }),
 		c20Go("strnum", func() interface{} { return "1" }),
@@ -274,7 +275,7 @@ func c20MakeAtoms() []c20Atom {
 		{name: "sparam", apply: expr(-1, false, func(e string) string { return "func(p){ return p }(" + e + ")" })},
 		{name: "gocall", apply: expr(1, false, func(e string) string { return "id(" + e + ")" })},
 		{name: "gomulti", apply: expr(1, true, func(e string) string { return "id2(" + e + ")[0]" })},
-		{name: "telem", only: map[string]bool{"int": true, "zero": true, "big": true},
+		{name: "telem", only: map[string]bool{"int": true, "zero": true, "big": true, "huge": true},
 			apply: expr(0, true, func(e string) string { return "[]int64{" + e + "}[0]" })},
 		{name: "paren", apply: expr(-1, false, func(e string) string { return "(" + e + ")" })},
 		{name: "ternary", apply: expr(-1, false, func(e string) string { return "(true ? " + e + " : 0)" })},
@@ -325,6 +326,18 @@ type c20Tmpl struct {
 	skip               map[string]bool
 }
 
+func c20HugeOK(id string) bool {
+	if strings.Contains(id, "-huge-") {
+		return true
+	}
+	for _, p := range []string{"read", "neg", "bitnot", "not", "add-", "sub-", "mul-", "and-", "or-", "eq-", "ne-", "lt-", "le-", "gt-", "ge-", "land-", "lor-", "switch-", "in-", "cond-", "arg-", "lit-", "throw", "member-write", "store-val"} {
+		if id == p || strings.HasPrefix(id, p) {
+			return !strings.Contains(id, "list") && !strings.Contains(id, "str") && !strings.Contains(id, "range") && !strings.Contains(id, "make")
+		}
+	}
+	return false
+}
+
 func c20MakeTmpls() []c20Tmpl {
 	var ts []c20Tmpl
 	add := func(t c20Tmpl) { ts = append(ts, t) }
@@ -347,6 +360,11 @@ func c20MakeTmpls() []c20Tmpl {
 		T(o.name+"-lhs", "$X "+o.op+" 3")
 		T(o.name+"-rhs", "3 "+o.op+" $X")
 		add(c20Tmpl{id: o.name + "-both", src: "$X " + o.op + " $Y", ykind: "same"})
+	}
+	// integers beyond 2^53: an operand that silently takes a float64 path shows here
+	for _, o := range []struct{ name, op string }{{"lt", "<"}, {"le", "<="}, {"gt", ">"}, {"ge", ">="}, {"eq", "=="}, {"sub", "-"}, {"add", "+"}} {
+		T(o.name+"-huge-lhs", "$X "+o.op+" 9007199254740992")
+		T(o.name+"-huge-rhs", "9007199254740992 "+o.op+" $X")
 	}
 	T("add-str-lhs", `$X + "s"`)
 	T("add-str-rhs", `"s" + $X`)
@@ -474,6 +492,9 @@ func c20MakeTmpls() []c20Tmpl {
 	}
 
 	T("defer-callee", "func(){\ndefer $X(3)\nglog(\"body\")\n}()")
+	T("defer-callee-spread", "func(){\ndefer $X([3]...)\nglog(\"body\")\n}()")
+	T("call-callee-spread", "$X([3]...)")
+	T("call-callee-spread-var", "sl = [3]\n$X(sl...)")
 	T("defer-arg", "func(){\ndefer glog($X)\nglog(\"body\")\n}()")
 	add(c20Tmpl{id: "go-callee", src: "go $X(3)", async: true})
 	add(c20Tmpl{id: "go-arg", src: "go glog($X)", async: true})
@@ -811,6 +832,12 @@ func (g *c20Engine) chainOK(t *c20Tmpl, val *c20Val, chain []int) (bool, string)
 
 // runCase compares every chain with the reference for one (template, value).
 func (g *c20Engine) runCase(c *wk.Case, t *c20Tmpl, val *c20Val, chains [][]int) {
+	if val.kind == "huge" && !c20HugeOK(t.id) {
+		// a 2^53+1 operand is meant for comparisons and arithmetic only: as a size,
+		// count or range bound it would ask for an astronomically large allocation
+		c.Excluded("huge-operand-outside-arithmetic")
+		return
+	}
 	if t.skip[val.kind] {
 		c.Excluded("template-kind:" + t.id + ":" + val.kind)
 		return
